@@ -27,6 +27,8 @@ def main():
     allp = "--all" in sys.argv
     if "--keep" in sys.argv:
         keep = sys.argv[sys.argv.index("--keep") + 1]
+    summary = sys.argv[sys.argv.index("--summary") + 1] if "--summary" in sys.argv else None
+    needs = sys.argv[sys.argv.index("--needs") + 1] if "--needs" in sys.argv else None
     patch = os.path.join(seed, "patch.diff")
     demo = os.path.join(seed, "demo")
     out = {"seed": seed, "property": prop}
@@ -57,7 +59,7 @@ def main():
                 if os.path.exists(p):
                     os.remove(p)
 
-        test_cmd = "go test -vet=off -count=1 " + " ".join(pkgs) if pkgs else None
+        test_cmd = "go test -vet=off -count=1 " + ("-race " if "--race" in sys.argv else "") + " ".join(pkgs) if pkgs else None
         # 1 clean + demo
         put_demo()
         if test_cmd:
@@ -118,7 +120,8 @@ def main():
             meta = {
                 "property": prop,
                 "source": "independent sub-agent given only the property text and a scratch worktree",
-                "needs_to_manifest": "see README.md",
+                "summary": summary or "see README.md",
+                "needs_to_manifest": needs or "see README.md",
                 "what_was_run": ["demo on clean tree: pass", "git apply patch.diff; go build ./... && go vet: pass", "existing tests (go test -vet=off -count=1 ./internal/... ./cmd/...) with patch: pass",
                                  "demo with patch: fails", "mysyncsa check against the patched tree"],
                 "caught_by_properties": [p for p, v in fired_all.items() if v["exit"] == 1],
